@@ -234,6 +234,17 @@ class IrToPythonCompiler:
             self.emit(r"amount = amount % bits")
             self.emit("return (x >> amount) | (x << (bits - amount))")
 
+        # Round to single precision:
+        self.emit("@staticmethod")
+        with self.func_def("f32(value):"):
+            self.emit("try:")
+            with self.indented():
+                self.emit('data = struct.pack("f", value)')
+            self.emit("except OverflowError:")
+            with self.indented():
+                self.emit("return math.copysign(math.inf, value)")
+            self.emit('return struct.unpack("f", data)[0]')
+
         with self.func_def("alloca(self, amount):"):
             self.emit("ptr = len(self.stack)")
             self.emit("self.stack.extend(bytes(amount))")
@@ -472,7 +483,9 @@ class IrToPythonCompiler:
             )
         elif ins.ty is ir.ptr:
             self.emit(f"{ins.name} = int(round({ins.src.name}))")
-        elif ins.ty in [ir.f32, ir.f64]:
+        elif ins.ty is ir.f32:
+            self.emit(f"{ins.name} = rt.f32(float({ins.src.name}))")
+        elif ins.ty is ir.f64:
             self.emit(f"{ins.name} = float({ins.src.name})")
         else:  # pragma: no cover
             raise NotImplementedError(str(ins))
@@ -504,6 +517,8 @@ class IrToPythonCompiler:
             bits = ins.ty.bits
             signed = ins.ty.signed
             self.emit(f"{ins.name} = rt.correct({ins.name}, {bits}, {signed})")
+        elif ins.ty is ir.f32:
+            self.emit(f"{ins.name} = rt.f32({ins.name})")
 
     def gen_load(self, ins):
         address = self.fetch_value(ins.address)
@@ -533,6 +548,8 @@ class IrToPythonCompiler:
             value = "math.nan"
         else:
             value = str(ins.value)
+        if ins.ty is ir.f32:
+            value = f"rt.f32({value})"
         self.emit(f"{ins.name} = {value}")
 
     def _fetch_callee(self, callee):
